@@ -172,6 +172,23 @@ func runC07(cfg *vh.Config) error {
 		Type:   "c07case",
 		Check:  "c07_check",
 	}
+	ff := &vh.CasesFile{
+		Header: "From Coq Require Import String List NArith ZArith.\nFrom J5V.model Require Import BclLexer CmpbFields CmpbDecls CmpbFront CmpbWalker CmpbFrontCorr.",
+		Type:   "c07fcase",
+		Check:  "c07f_check",
+	}
+	var frontRecs []vh.CaseRec
+	// conversion errors of a located file: model of sourcewalk child / GetPos + addError against the real positions
+	convPos := func(caseNo int, stream string, in any, src string, lcoq string, pos []cmpb.Pos) {
+		fo := observeFront(src)
+		sp, all := errSpans(pos)
+		if !fo.HasFile || !all {
+			return
+		}
+		ff.Terms = append(ff.Terms, fmt.Sprintf("CConvPos %s %s %s", locTreeCoq(fo.Locs), lcoq, spansCoq(sp)))
+		frontRecs = append(frontRecs, vh.CaseRec{Case: caseNo, Stream: stream + "-pos", Input: in, Impl: map[string]any{"positions": pos}})
+		res.Count("convpos")
+	}
 	distinct := vh.Distinct{}
 	caseNo := 0
 	var corpus []map[string]string // valid bundles, seeds of the mutation stream
@@ -212,6 +229,9 @@ func runC07(cfg *vh.Config) error {
 				res.Fail(vh.Failure{Case: caseNo, Stream: "iso", Sig: "C07 documented language not accepted: " + gap, Clause: "every package within the documented language is accepted", Input: in, Got: o.ErrText})
 			}
 			checkPositions(res, caseNo, "iso", "iso conversion error", o.Pos, content, mainFile, in)
+			if pi%3 == int(cfg.Seed%3) || cfg.Tier == "thorough" {
+				convPos(caseNo, "iso", in, content[mainFile], fmt.Sprintf("[LObject %s false [%s]]", pathCoq(declPath(0, "object")), lpropCoq(p, declPath(0, "object"), 0)), o.Pos)
+			}
 		case "VOk":
 			if len(corpus) < 400 {
 				corpus = append(corpus, content)
@@ -323,11 +343,12 @@ func runC07(cfg *vh.Config) error {
 			Files   map[string]string
 			InLang  bool
 			ListReq bool
+			LCoq    string
 		}
 		fcs := make([]fileCase, nF)
 		for i := range fcs {
-			c, f, l, lr := genFile(rF, pool)
-			fcs[i] = fileCase{c, f, l, lr}
+			c, f, l, lr, lc := genFile(rF, pool)
+			fcs[i] = fileCase{c, f, l, lr, lc}
 		}
 		type fobs struct {
 			Verdict              string
@@ -390,6 +411,7 @@ func runC07(cfg *vh.Config) error {
 					res.Fail(vh.Failure{Case: caseNo, Stream: "file", Sig: "C07 file of in-language declarations rejected (" + errClass(o.ErrText) + ")", Clause: "every package within the documented language is accepted", Input: in, Got: o.ErrText})
 				}
 				checkPositions(res, caseNo, "file", "file conversion error", o.Pos, fc.Files, mainFile, in)
+				convPos(caseNo, "file", in, fc.Files[mainFile], fc.LCoq, o.Pos)
 			}
 			cf.Terms = append(cf.Terms, fmt.Sprintf("CFile %s %q %s %s %s %s", fc.Coq, refFilePath, o.Verdict, coqStrList(o.Main), coqStrList(o.Service), coqStrList(o.Topic)))
 			res.Cases = append(res.Cases, vh.CaseRec{Case: caseNo, Stream: "file", Input: in, Impl: o})
@@ -453,6 +475,10 @@ func runC07(cfg *vh.Config) error {
 	// ---- stream 3: malformed inputs (random bytes, byte flips, token mutations) through Compile and LintFile
 	rMut := cfg.R.Fork("mut")
 	nMut := cfg.Scale(350, 12000)
+	if len(corpus) == 0 {
+		// nothing compiled (every case above failed and was reported): mutate a fixed seed so the run completes
+		corpus = append(corpus, map[string]string{mainFile: "package foo.v1\n\nobject Foo {\n  field f string\n}\n"})
+	}
 	mutContents := make([]map[string]string, nMut)
 	mutHow := make([]string, nMut)
 	for i := 0; i < nMut; i++ {
@@ -579,6 +605,54 @@ func runC07(cfg *vh.Config) error {
 		caseNo++
 	}
 
+	// ---- stream 5: the front end alone (BCL parser + schema walker) on valid, malformed, semantic-error and
+	// walker-directed texts; position contract against C11's parser model; coverage of the unmodelled walker
+	{
+		var texts, how []string
+		seen := map[string]bool{}
+		add := func(t, h string) {
+			if !seen[t] {
+				seen[t] = true
+				texts = append(texts, t)
+				how = append(how, h)
+			}
+		}
+		for _, t := range walkerInputs() {
+			add(t, "walker-directed")
+		}
+		nValid := cfg.Scale(40, 400)
+		for i, c := range corpus {
+			if i >= nValid {
+				break
+			}
+			add(c[mainFile], "valid")
+		}
+		for _, d := range decls {
+			for _, fn := range sortedFileNames(d.Files) {
+				if strings.HasSuffix(fn, ".j5s") {
+					add(d.Files[fn], "declaration matrix "+d.Name)
+				}
+			}
+		}
+		for _, d := range sems {
+			for _, fn := range sortedFileNames(d.Files) {
+				if strings.HasSuffix(fn, ".j5s") {
+					add(d.Files[fn], "semantic error "+d.Name)
+				}
+			}
+		}
+		nMutFront := cfg.Scale(110, 3000)
+		for i := 0; i < nMut && i < nMutFront; i++ {
+			add(mutContents[i][mainFile], "malformed: "+mutHow[i])
+		}
+		for _, t := range texts {
+			distinct.Add("front:" + t)
+		}
+		ft, fr := runFront(cfg, res, &caseNo, texts, how)
+		ff.Terms = append(ff.Terms, ft...)
+		frontRecs = append(frontRecs, fr...)
+	}
+
 	res.Evaluations = caseNo
 	res.Distinct = len(distinct)
 	const per = 450
@@ -590,7 +664,17 @@ func runC07(cfg *vh.Config) error {
 		res.Cases[i].Shard = fmt.Sprintf("cases_%d", i/per)
 		res.Cases[i].Pos = i % per
 	}
-	res.Shards = shards
+	const perFront = 120
+	fshards, err := ff.WriteShards(cfg.Out, "front", perFront)
+	if err != nil {
+		return err
+	}
+	for i := range frontRecs {
+		frontRecs[i].Shard = fmt.Sprintf("front_%d", i/perFront)
+		frontRecs[i].Pos = i % perFront
+	}
+	res.Cases = append(res.Cases, frontRecs...)
+	res.Shards = append(shards, fshards...)
 	return res.Write(cfg.Out)
 }
 
